@@ -95,9 +95,9 @@ PROPS = {
         "assumptions": [SC, MAP_ASSUME, "std::mutex / std::recursive_mutex traffic is scheduled through the pthread interposers. Tiny tables: Cuckoo initial size 1-4 with probe-set size 2-4 and colliding injective hash tuples; Striped resizing policies single_bucket_size_threshold<0..2> and rational load factors (StripedSet clamps the initial capacity to 16, so resizes are forced by the policy and a shifted hash). A probe walks the bucket tables at quiescent points (no key twice, element in the bucket its hash selects, probe-set bounds, size() = linked elements)."],
     },
     "C17": {
-        "harnesses": [{"name": "rehash", "variants": list(range(0, 9)) + list(range(13, 27)), "quick": 120000, "thorough": 1200000, "fuzz_runs": 0},
+        "harnesses": [{"name": "rehash", "variants": list(range(0, 9)) + list(range(13, 27)), "quick": 120000, "thorough": 800000, "fuzz_runs": 0},
                       {"name": "rehash_boost", "quick": 100000, "thorough": 1000000, "fuzz_runs": 0},
-                      {"name": "rehash_big", "quick": 160000, "thorough": 1600000, "fuzz_runs": 0}],
+                      {"name": "rehash_big", "quick": 160000, "thorough": 640000, "fuzz_runs": 0}],
         "assumptions": ["rehash_big: large initial capacities (1024..16384 buckets, default constructor) and runs of up to 128 consecutive keys out of 0..1023 so that multi-segment bucket tables, hundreds of initialised buckets and deep Feldman arrays are reached; std::set differential with a full re-check of every key ever used after each run.",
                         "Single thread, no scheduler: sequences of up to 120/200 operations over keys 0..63 with generated degenerate hash families (constant, k & m, k >> s, k << s, k * odd, identity); oracle: exact std::map differential after every step, full content compare every 4 steps, bucket-table probe. For Cuckoo tuples at least one member is injective (all-constant tuples make CuckooSet resize for ever: outside every real caller's domain).",
                         "The four Cuckoo variants with low-entropy tuples (rehash variants 9-12) are excluded from the generated campaign: they reproduce the open finding cuckoo-resize-drops-element within a few thousand cases; its reproducers are replayed and reported as KNOWN-FINDING."],
